@@ -9,9 +9,8 @@ import Shentu.Proofs.EVMLemmas
   the words `w0 w1 ..` are popped in that order (regenerated from the Go AST on every run, see translator/evm.go;
   `Option Nat` when the case uses a primitive that can panic or raise an error, `none` being that failure).
   `Spec.x` is the Yellow Paper / execution-specs semantics on `BitVec 256` (Shentu/EVM/Spec.lean).
-  Each `refines_X` holds for ALL 256-bit operands.  Two instructions deviate from the specification for
-  operands ≥ 2^64 (SIGNEXTEND, BYTE): they have a `_partial` theorem under the exact hypothesis plus a
-  `deviation_` witness that the hypothesis cannot be dropped.
+  Each `refines_X` holds for ALL 256-bit operands.  (Before the `fix:` commits 986ee65 / 35da036 SIGNEXTEND and BYTE
+  deviated for index operands ≥ 2^64 and only had `_partial` theorems; 4014336 made EXP modular.)
 -/
 namespace Shentu.Props.C16
 open Shentu Shentu.EVM Shentu.Gen.EVM
@@ -97,8 +96,10 @@ theorem refines_MULMOD (x y z : BitVec 256) : op_MULMOD x.toNat y.toNat z.toNat 
     have h' : ¬ ((z.toNat : Int) = 0) := by rw [Int.natCast_eq_zero, toNat_eq_zero]; exact h
     simp only [bigMod, if_neg h', Option.bind_some, pushBigInt, ← Int.natCast_mul, ← Int.natCast_emod, u256_natCast, BitVec.toNat_ofNat]
 
-theorem refines_EXP (x y : BitVec 256) : op_EXP x.toNat y.toNat = (Spec.exp x y).toNat := by
-  simp only [op_EXP, Spec.exp, bigOfWord, bigExp_natCast, pushBigInt, BitVec.toNat_ofNat, u256_natCast]
+/-- EXP is computed as `Exp(x, y, tt256)` with the package-level `tt256 = 1 << 256` (resolved from its declaration) -/
+theorem refines_EXP (x y : BitVec 256) : op_EXP x.toNat y.toNat = some (Spec.exp x y).toNat := by
+  simp only [op_EXP, Spec.exp, bigOfWord, bigExpMod_natCast, Option.bind_some, pushBigInt, BitVec.toNat_ofNat,
+    u256_natCast, Nat.mod_mod]
 
 theorem refines_SDIV (x y : BitVec 256) : op_SDIV x.toNat y.toNat = some (Spec.sdiv x y).toNat := by
   simp only [op_SDIV, bigOfWordSigned_toNat, bigSign_eq_zero, toInt_eq_zero]
@@ -135,29 +136,18 @@ theorem refines_SAR (s x : BitVec 256) : op_SAR s.toNat x.toNat = (Spec.sar s x)
     have : bigUint64 (s.toNat : Int) = s.toNat := by unfold bigUint64; omega
     rw [this, bigRsh]
 
-/-- SIGNEXTEND agrees with the specification unless the index operand is ≥ 2^64 and its low 64 bits are < 31 -/
-theorem refines_SIGNEXTEND_partial (b x : BitVec 256) (h : b.toNat < 2 ^ 64 ∨ 31 ≤ b.toNat % 2 ^ 64) :
-    op_SIGNEXTEND b.toNat x.toNat = (Spec.signextend b x).toNat := by
-  simp only [op_SIGNEXTEND, Spec.signextend, bigOfWord, bigUint64, Int.natAbs_natCast, pushBigInt]
+theorem refines_SIGNEXTEND (b x : BitVec 256) : op_SIGNEXTEND b.toNat x.toNat = (Spec.signextend b x).toNat := by
+  simp only [op_SIGNEXTEND, Spec.signextend, bigOfWord, bigIsUint64_natCast, pushBigInt]
   by_cases hb : b.toNat < 31
-  · have h1 : b.toNat % 2 ^ 64 = b.toNat := by omega
+  · have h0 : b.toNat < 2 ^ 64 := by omega
+    have h1 : bigUint64 (b.toNat : Int) = b.toNat := bigUint64_small _ h0
     have h2 : u64 (u64 (b.toNat + 1) * 8) = 8 * (b.toNat + 1) := by unfold u64; omega
-    simp only [h1, hb, if_true, h2]
+    simp only [h0, h1, hb, and_self, if_true, h2]
     rw [signExtend_eq_bmod _ _ (by omega), toNat_eq_u256_toInt (BitVec.signExtend 256 _),
       BitVec.toInt_signExtend_of_le (by omega), BitVec.toInt_setWidth]
-  · have h1 : ¬ (b.toNat % 2 ^ 64 < 31) := by omega
+  · have h1 : ¬ (b.toNat < 2 ^ 64 ∧ bigUint64 (b.toNat : Int) < 31) := by
+      intro ⟨h0, h⟩; rw [bigUint64_small _ h0] at h; exact hb h
     simp only [h1, hb, if_false]
-
-theorem refines_SIGNEXTEND_of_lt (b x : BitVec 256) (h : b.toNat < 2 ^ 64) :
-    op_SIGNEXTEND b.toNat x.toNat = (Spec.signextend b x).toNat :=
-  refines_SIGNEXTEND_partial b x (Or.inl h)
-
-/-- DEVIATION.  `back := stack.PopBigInt().Uint64()` keeps only the low 64 bits of the index operand:
-    SIGNEXTEND(2^64, 0xff) sign-extends from byte 0 (result 2^256 − 1) where the specification leaves 0xff unchanged. -/
-theorem deviation_SIGNEXTEND :
-    op_SIGNEXTEND (BitVec.ofNat 256 (2 ^ 64)).toNat (0xff#256).toNat = 2 ^ 256 - 1 ∧
-    (Spec.signextend (BitVec.ofNat 256 (2 ^ 64)) 0xff#256).toNat = 0xff := by
-  decide
 
 theorem refines_SHL (s x : BitVec 256) : op_SHL s.toNat x.toNat = (Spec.shl s x).toNat := by
   simp only [op_SHL, Spec.shl, bigOfWord, bigCmp_ge, pushBigInt]
@@ -181,35 +171,24 @@ theorem refines_SHR (s x : BitVec 256) : op_SHR s.toNat x.toNat = (Spec.shr s x)
     have hd : x.toNat / 2 ^ s.toNat ≤ x.toNat := Nat.div_le_self _ _
     rw [show (2 : Int) ^ s.toNat = ((2 ^ s.toNat : Nat) : Int) by simp, ← Int.natCast_ediv, u256_of_lt _ (by omega)]
 
-/-- BYTE agrees with the specification when the index operand fits 64 bits -/
-theorem refines_BYTE_partial (i x : BitVec 256) (h : i.toNat < 2 ^ 64) :
-    op_BYTE i.toNat x.toNat = some (Spec.byte i x).toNat := by
-  simp only [op_BYTE, Spec.byte, pop64, h, if_true, Option.bind_some]
+theorem refines_BYTE (i x : BitVec 256) : op_BYTE i.toNat x.toNat = some (Spec.byte i x).toNat := by
+  simp only [op_BYTE, Spec.byte, bigOfWord, bigIsUint64_natCast]
   by_cases hi : i.toNat < 32
-  · simp only [hi, if_true, wordByte, Option.bind_some, push64, BitVec.toNat_and, BitVec.toNat_ushiftRight,
-      Nat.shiftRight_eq_div_pow]
+  · have h0 : i.toNat < 2 ^ 64 := by omega
+    have h1 : bigUint64 (i.toNat : Int) = i.toNat := bigUint64_small _ h0
+    simp only [h0, h1, hi, and_self, if_true, wordByte, Option.bind_some, push64, BitVec.toNat_and,
+      BitVec.toNat_ushiftRight, Nat.shiftRight_eq_div_pow]
     have e1 : (255#256).toNat = 2 ^ 8 - 1 := by decide
     have e2 : 2 ^ (8 * (31 - i.toNat)) = 256 ^ (31 - i.toNat) := by rw [Nat.pow_mul]
     rw [e1, Nat.and_two_pow_sub_one_eq_mod, e2]
     congr 1
     omega
-  · simp only [hi, if_false]; rfl
+  · have h1 : ¬ (i.toNat < 2 ^ 64 ∧ bigUint64 (i.toNat : Int) < 32) := by
+      intro ⟨h0, h⟩; rw [bigUint64_small _ h0] at h; exact hi h
+    simp only [h1, hi, if_false]; rfl
 
-/-- DEVIATION.  `idx := stack.Pop64()` raises `IntegerOverflow` (the whole call fails) for every index ≥ 2^64,
-    where the specification pushes 0. -/
-theorem deviation_BYTE (i x : BitVec 256) (h : 2 ^ 64 ≤ i.toNat) :
-    op_BYTE i.toNat x.toNat = none ∧ Spec.byte i x = 0 := by
-  constructor
-  · simp only [op_BYTE, pop64, if_neg (by omega : ¬ i.toNat < 2 ^ 64), Option.bind_none]
-  · simp only [Spec.byte, if_neg (by omega : ¬ i.toNat < 32)]
-
-theorem deviation_BYTE_witness :
-    op_BYTE (BitVec.ofNat 256 (2 ^ 64)).toNat (1#256).toNat = none ∧ (Spec.byte (BitVec.ofNat 256 (2 ^ 64)) 1#256).toNat = 0 := by
-  decide
-
-/-- EXP computes the full power `x**y` before truncating (`Exp(x, y, nil)`): same result as the specification,
-    only more work; the result is the same for all operands (`refines_EXP`). -/
-example : op_EXP 3 5 = 243 := by decide
+/-- the operands that used to deviate (index ≥ 2^64) now follow the specification -/
+example : op_SIGNEXTEND (2 ^ 64) 0xff = 0xff ∧ op_BYTE (2 ^ 64) 1 = some 0 := by decide
 
 end Shentu.Props.C16
 
@@ -224,9 +203,7 @@ end Shentu.Props.C16
 #print axioms Shentu.Props.C16.refines_ADDMOD
 #print axioms Shentu.Props.C16.refines_MULMOD
 #print axioms Shentu.Props.C16.refines_EXP
-#print axioms Shentu.Props.C16.refines_SIGNEXTEND_partial
-#print axioms Shentu.Props.C16.refines_SIGNEXTEND_of_lt
-#print axioms Shentu.Props.C16.deviation_SIGNEXTEND
+#print axioms Shentu.Props.C16.refines_SIGNEXTEND
 #print axioms Shentu.Props.C16.refines_LT
 #print axioms Shentu.Props.C16.refines_GT
 #print axioms Shentu.Props.C16.refines_SLT
@@ -237,9 +214,7 @@ end Shentu.Props.C16
 #print axioms Shentu.Props.C16.refines_OR
 #print axioms Shentu.Props.C16.refines_XOR
 #print axioms Shentu.Props.C16.refines_NOT
-#print axioms Shentu.Props.C16.refines_BYTE_partial
-#print axioms Shentu.Props.C16.deviation_BYTE
-#print axioms Shentu.Props.C16.deviation_BYTE_witness
+#print axioms Shentu.Props.C16.refines_BYTE
 #print axioms Shentu.Props.C16.refines_SHL
 #print axioms Shentu.Props.C16.refines_SHR
 #print axioms Shentu.Props.C16.refines_SAR
